@@ -552,13 +552,20 @@ func suiteOneBlock(o *Out, r *Rng, n int, tier string) {
 				base := uint64(r.Intn(50))
 				var names []string
 				var cand [][2]string
+				sharedParents := []string{fmt.Sprintf("%016x", r.U64()), fmt.Sprintf("%016x", r.U64())}
 				for t, m := 0, 1+r.Intn(6); t < m; t++ {
 					bn := base + uint64(r.Intn(4))
 					bid := fmt.Sprintf("%016x", r.U64())
 					if r.Intn(5) == 0 {
 						bid = fmt.Sprintf("%032x", r.U64())
 					}
-					b := &pbbstream.Block{Number: bn, Id: bid, ParentId: fmt.Sprintf("%016x", r.U64()), LibNum: base}
+					// siblings: blocks of the same height often share their parent (ordinary fork blocks)
+					par := fmt.Sprintf("%016x", r.U64())
+					if r.Intn(3) > 0 {
+						par = sharedParents[r.Intn(2)]
+						o.Stat("oneblock.fetch.file_with_shared_parent", 1)
+					}
+					b := &pbbstream.Block{Number: bn, Id: bid, ParentId: par, LibNum: base}
 					names = append(names, bstream.BlockFileNameWithSuffix(b, []string{"generated", "m1"}[r.Intn(2)]))
 					cand = append(cand, [2]string{fmt.Sprint(bn), bid})
 				}
